@@ -32,15 +32,18 @@ func run(r *vk.Run) {
 		"A history builds a fresh server as WrapApi(router(WrapApi(server))) under one of 5 device names, creates the keys of keyed resources (hail, stock, publication: 2 keys; electric: 3 modes), "+
 		"then runs 8-16 steps drawn from: Update (value = current value changed in 1-3 places by a large step - a non-float leaf, or a float by >= 1 - or a fresh random value; "+
 		"update_mask none / valid / empty / invalid (unknown field, continuation through a scalar); delta/relative/version and other request fields set now and then; 1 in 16 addressed to a non-existent key), "+
-		"masked Get (1-3 valid paths, depth <= 2), open a Pull (read mask or not, updates_only 1 in 4; at most 2 open), cancel a Pull, and a two-shot update-mask probe. "+
-		"After every Update: response == next Get (or, if rejected, Get unchanged, other keys unchanged), and at the next quiescent point every open stream of that key whose masked view changed by a large step has received a change whose last value is the (projected) response and whose name is the Pull request's name. "+
-		"The first history of every triple runs every operation class once so that a crashing class is found early. "+
+		"masked Get (1-3 valid, non-overlapping paths, depth <= 2), open a Pull (read mask or not, updates_only 1 in 4; at most 2 open), cancel a Pull, and a two-shot update-mask probe. "+
+		"After every Update: response == next Get (or, if rejected, Get unchanged), other keys unchanged, and at the next quiescent point every open stream of that key whose masked view changed by a large step has received a change whose last value is the (projected) response and whose name is the Pull request's name; streams of other keys received nothing. "+
+		"After every masked Get / Pull open: the value equals the reference projection of the full Get, and the full Get is the same as before the read. "+
+		"History 0 of every triple is run by every worker first: a directed part (for every value the table lists as accepted by a business rule - preset names, mode ids - Update {field: value}, then a masked Get and a masked Pull for every mask path at or below that field) and one step of every operation class, so that a class that crashes the process or damages the server state is found early and (like a crashed class) not used again on that server. "+
 		"A case is distinct by (server, triple, operation, value kind, mask class and paths, outcome code, top-level fields that changed, stream configuration) and non-trivial when it reaches the server (every counted case does).",
-		"reference projection is vk.RefProject (independent of pkg/masks); read masks are valid paths only (invalid read masks belong to C06)",
+		"reference projection is vk.RefProject (independent of pkg/masks); read masks are valid paths only and never contain a path together with one of its descendants (invalid read masks and parent+child masks are C06's subject)",
 		"'changes the value beyond the tolerance' is decided on the observed values: a non-float leaf differs, or a float leaf differs by >= 1 (configured tolerances in pkg/trait models with a triple: 0.01 absolute); smaller changes may or may not be delivered",
 		"between two quiescent points exactly one Update is in flight, so every change that arrives belongs to it; intermediate changes are accepted, the last one must carry the response",
-		"what an updates-only Pull delivers first is observed, not judged",
+		"a stream opened with a read mask must carry the projection of the response (clause suffix /masked)",
+		"what an updates-only Pull delivers first is observed, not judged; whether an invalid or empty update_mask is accepted is observed, not judged",
 		"an Update request always carries a value message (a request without one is a malformed request, not a random update)",
+		"clause update-mask-ignored (update_mask [A], request also changes B, stored B follows the request twice although the second write repeats A) goes beyond the literal statement: it checks the anchored mechanism 'servers translate update_mask into resource options'; messages with a single field (OnOff, ModeValues) cannot be probed",
 		"lightpb.MemoryDevice only with zero tween duration; hailpb.Model with the wall-clock driven garbage collection switched off",
 		"a triple all of whose RPCs answer Unimplemented does not expose a resource and is outside the domain (presspb.ModelServer, see notes)")
 
@@ -74,20 +77,22 @@ func run(r *vk.Run) {
 	need := func(c string, q int) { r.Require(c, q*scale) }
 	need("histories", 900)
 	need("updates", 5000)
-	need("checked/update-vs-get", 1800)
-	need("checked/rejected-unchanged", 1500)
-	need("checked/masked-get", 1200)
-	need("checked/seed", 500)
-	need("checked/seed-masked", 150)
-	need("checked/stream-required", 700)
-	need("checked/stream-required-masked", 150)
-	need("checked/stream-name", 1200)
-	need("checked/stream-of-other-key", 40)
+	need("checked/update-vs-get", 3500)
+	need("checked/rejected-unchanged", 800)
+	need("checked/masked-get", 2000)
+	need("checked/read-leaves-get-unchanged", 3000)
+	need("checked/seed", 600)
+	need("checked/seed-masked", 300)
+	need("checked/stream-required", 1200)
+	need("checked/stream-required-masked", 400)
+	need("checked/stream-name", 2500)
+	need("checked/stream-of-other-key", 300)
 	if checkUpdateMaskHonoured {
-		need("checked/update-mask", 250)
+		need("checked/update-mask", 300)
 	}
 	for _, t := range targets {
-		need("updates/"+t.e.id+"/"+t.tr.x+"/ok", 40)
+		need("updates/"+t.e.id+"/"+t.tr.x+"/ok", 80)
+		need("checked/stream-required/"+t.e.id+"/"+t.tr.x, 20)
 	}
 }
 
